@@ -624,8 +624,14 @@ class PacketTransmitter(Elaboratable):
                     m.d.comb += rewind_for_retry.eq(1)
                     m.d.ss   += rewind_needed.eq(0)
 
-                # If we have packets to send, pass them to our transmitter.
-                with m.Elif(self.bringup_complete & (packets_to_send != 0)):
+                # If an LGOOD has retired the packet we'd retransmit next since we rewound, skip it: its buffer
+                # may be handed to a new packet at any time, and only un-retired packets are to be retransmitted.
+                with m.Elif(retry_pending & (packets_to_send > packets_awaiting_ack)):
+                    m.d.comb += dequeue_send.eq(1)
+
+                # If we have packets to send, pass them to our transmitter. (A retransmission waits here for our
+                # LRTY to go out, so LGOODs that arrive in the meantime still find us between two packets.)
+                with m.Elif(self.bringup_complete & (packets_to_send != 0) & ~(retry_pending & self.lrty_pending)):
 
                     with m.If(~retry_pending):
                         # Wait until the packet is sent.
